@@ -18,6 +18,16 @@ CLAIMS = {
     note="Bounded: MC exhaustive to 5 (quick) / 7 (thorough) events; code bound only on the behaviours replayed. "
          "Trusts TLC, tokio's paused clock (hook H1) and the harness as transport.",
     technique="TLA+ spec + TLC model checking; model-based test generation; TLC trace validation of the real token store"),
+ "C07": dict(
+    category="model_checking",
+    text="TLC checks the expiry-queue design (spec/PeerStore.tla) against the history statement of C07 (exactly the pairs "
+         "acknowledged within 24 h, duplicate-free, <=500, refusal is a no-op, renewal succeeds when full, expiry frees capacity) "
+         "exhaustively for CAP=3; the same statement (PeerStore!FindOK/AddOK) judges executions of the real AnnounceStorage at "
+         "CAP=500 over days of virtual time, driven by TLC-generated small behaviours and seeded bulk behaviours, validated by TLC.",
+    design_ref="DESIGN.md §5 C07, §3.5",
+    note="Bounded: MC exhaustive for CAP=3 to 5/7 events; production capacity only on the replayed behaviours. Component level; "
+         "the wire path (announced/implied port, family filter, error 202) is bound by the node-level server traces (C05).",
+    technique="TLA+ spec + TLC model checking; model-based test generation; TLC trace validation of the real peer store"),
 }
 
 def main():
